@@ -431,6 +431,16 @@ def mk_call(f, args, kw):
     args = tuple(args)
     if f == G("jax.random.split") and len(args) == 2 and args[1] == C(2) and not kw:
         args = args[:1]  # split(key, 2) is split(key)
+    if f == G("map") and len(args) == 2 and not kw and args[0] in (G("list"), G("tuple")) and (is_t(args[1], "cols") or (is_t(args[1], "tuple") and all(_fam_like(x) for x in args[1][1]))):
+        return args[1]  # map(list, zip(*rows)): each column as a list is the column
+    if f == G("jax.tree_util.tree_unflatten") and len(args) == 2 and not kw and is_t(args[1], "fam") and not is_t(args[1][1], "enumerate"):
+        # tree_unflatten(structure of T, [g(x) for x in leaves of T]) is tree_map(g, T) (default leaves on both sides)
+        TF = lambda T: ("call", G("jax.tree_util.tree_flatten"), (T,), ())
+        lv_ = args[1][1]
+        T_ = lv_[1][2][0] if is_t(lv_, "proj") and lv_[2] == 0 and is_t(lv_[1], "call") and lv_[1][1] == G("jax.tree_util.tree_flatten") and len(lv_[1][2]) == 1 and not lv_[1][3] else (
+            lv_[2][0] if is_t(lv_, "call") and lv_[1] == G("jax.tree_util.tree_leaves") and len(lv_[2]) == 1 and not lv_[3] else None)
+        if T_ is not None and args[0] in (("proj", TF(T_), 1), ("call", G("jax.tree_util.tree_structure"), (T_,), ())):
+            return ("treemap", subst(args[1][2], ("elem", lv_), ("leaf", T_)), (T_,))
     if (f == G("dict.fromkeys") or f == ("attr", G("dict"), "fromkeys")) and len(args) == 2 and not kw:
         it_ = norm_it(_iterable(args[0]))
         return ("dictfam", it_, mk_elem(it_), args[1])  # dict.fromkeys(ks, v) is {k: v for k in ks}
